@@ -43,7 +43,7 @@ def run(ctx):
     # reads another train's authority or aborts past the end of the list)
     from .common import RuleProxy
     from . import C04
-    C04.run(RuleProxy(ctx, {'C04-0.start': 'C05-4.times', 'C04-6.clear': 'C05-4.times', 'C04-8.index': 'C05-5.index'}))
+    C04.run(RuleProxy(ctx, {'C04-0.start': 'C05-4.times', 'C04-4.entry': 'C05-4.times', 'C04-6.clear': 'C05-4.times', 'C04-7.occupancy': 'C05-4.times', 'C04-8.index': 'C05-5.index'}))
 
 
 def unsafe_inventory(ctx):
